@@ -473,6 +473,7 @@ func TestVerifC01StateMachine(t *testing.T) {
 			},
 		})
 		opened := 0
+		nontrivial := false
 		for _, mc := range mcs {
 			if mc.rejections > 0 {
 				st.Class("opened")
@@ -482,11 +483,14 @@ func TestVerifC01StateMachine(t *testing.T) {
 				st.Class("forced-probe-exercised")
 			}
 			if mc.rejections > 0 && mc.admAfterReject > 0 {
-				st.NonTrivial(mc.log.String())
+				nontrivial = true
 			}
 			st.ClassN("calls", mc.calls)
 			st.ClassN("rejections", mc.rejections)
 			st.ClassN("calls-whose-context-ended-during-the-request", mc.midCancelled)
+		}
+		if nontrivial { // one case, one entry: the first breaker's history shows the other's actions in braces
+			st.NonTrivial(first.log.String())
 		}
 		if len(mcs) > 1 {
 			st.Class("two-breakers")
